@@ -337,6 +337,16 @@ def workload(ctx, repo):
                         ctx.case = case
                         ctx.ev("cases.sweep")
                         run_case(ctx, repo, case)
+    # unit counts given as True (an int that is not the object 1)
+    if ctx.worker == 0:
+        for dkw in ({"hours": True}, {"days": True}, {"seconds": True},
+                    {"minutes": True, "seconds": 30}):
+            for op in ("add", "sub", "radd"):
+                kw = gen.rand_tp(rng, "gregorian", form="hms", integral=True)
+                case = {"op": op, "mode": "gregorian", "p": kw, "d": dkw}
+                ctx.case = case
+                ctx.ev("cases.bool-valued-unit")
+                run_case(ctx, repo, case)
     # decimal fractions that cancel: in decimal the result falls exactly on
     # a whole minute (or second), in binary a few ulp beside it - on either
     # side of the carry
